@@ -54,6 +54,10 @@ ASSUMPTIONS = [
     "deliver before the reader task runs (StreamReader buffer); feed after end-of-stream is not generated",
     "the reader task's trace on the implementation side is recorded by wrappers around HSFZConnection._read_frame and "
     "send_alive_msg (what _read_frame returned, that send_alive_msg was entered, IncompleteReadError)",
+    "clause 'error control words surface' is judged on the implementation as: the client consumes the queue in arrival order, so "
+    "no read may deliver a data frame and no write may complete by an ack that arrived behind a control word other than data / "
+    "ack / alive (the n-th successful write echoing e needs at least the n-th matching ack of the stream); WHICH connection "
+    "error a call that meets no ack ends with (error word at once vs. 'no ack' at the deadline) is compared with the model only",
     "frames of other address pairs and stale acks skipped by a read() that then ends by an exception (timeout, error word, "
     "end of stream) are dropped by the code (local list) - modelled as the code does it, not part of the property "
     "(the property protects frames skipped by the ack wait); `hsfz_foreign_preserved` / `hsfz_acks_used_once` are therefore "
@@ -1549,7 +1553,10 @@ MANIFEST = {
                    "(frames handled by the reader task ++ complete in the buffer = the stream's frames, all handled on an open "
                    "connection), `hsfz_alive_always_answered_partial` (every alive check in the reader's trace followed by its reply; "
                    "reply bytes / instant / independence of the client phase per step), `hsfz_closed_never_blocks`, "
-                   "`hsfz_error_word_closes_partial` (closed is final, later calls fail at once). "
+                   "`hsfz_error_word_closes_partial` (closed is final, later calls fail at once), "
+                   "`hsfz_idle_error_word_fails_next_write` (a control word queued while the tester is idle, behind frames that are not "
+                   "the ack, fails the next write at the instant it starts and closes the connection - whatever the gateway sends "
+                   "meanwhile, acks included). "
                    "Tied to the code by tables regenerated from hsfz.py (enum, struct formats, literals, match arms) with agreement "
                    "theorems, and by a differential run of the real HSFZTransport/HSFZConnection over in-memory streams under virtual "
                    "time: all frame sequences up to length 4 (quick) / 5 (thorough) over an 8-symbol gateway alphabet x 6 injection "
@@ -1564,7 +1571,13 @@ MANIFEST = {
                    "frame in every phase (also before connect()), 2-call programs x all 2-frame sequences x placements, 9 further "
                    "control words / short frames at every phase, frames then EOF (before / after connect()) then calls, acks around "
                    "both deadlines then further writes / close, bursts of 40-70 frames with an alive check in every client phase, "
-                   "seeded event lists; the property's clauses (incl. reader trace = stream frames, alive reply after every alive "
+                   "seeded event lists; a gateway that keeps acknowledging and answering every request while one of 16 control words "
+                   "(every enum member other than data / ack / alive and unknown words, with empty, address and longer bodies), an "
+                   "early / stale ack or a foreign frame arrives in any phase - in particular while the tester is idle between two "
+                   "calls, with frames queued in front / behind, with / without a read in between - followed by further acked writes "
+                   "and reads (plain and whole executions); ack timeouts from the URI that are no whole seconds / no multiple of "
+                   "100 ms / above a minute (1 .. 90500 ms) with acks around the deadline; the property's clauses (incl. no call "
+                   "succeeds by a frame that arrived behind an error control word, reader trace = stream frames, alive reply after every alive "
                    "check, calls on a closed connection fail at once) are also evaluated directly on the implementation's traces."),
     "level_note": ("Partial: `hsfz_acks_used_once` and `hsfz_foreign_preserved` are not proved as whole-execution theorems (a read that ends by "
                    "an exception drops the foreign frames it skipped - code behaviour outside the property); the alive-check and "
